@@ -76,8 +76,10 @@ func init() {
 	props = append(props, &propSpec{ID: "C20", Level: "exploration", Clauses: []string{"C20."},
 		Scens:  []scenSpec{{Name: "upload", Weight: 2}, {Name: "restartdir", Weight: 3, Batch: 20}, {Name: "backend", Weight: 2}, {Name: "names", Weight: 1, Batch: 50}, {Name: "conc", Weight: 1}},
 		QuickS: 45, ThorS: 600, Rule: ruleCommon + "; for the 'names' scenario a run is a batch of (kind, hash, prefix, mode) tuples evaluated through the S3/Azure key functions (pure-function spot check)"})
-	props = append(props, &propSpec{ID: "C14", Level: "exploration", Clauses: []string{"C14."},
-		Scens:  []scenSpec{{Name: "hostile", Weight: 3}, {Name: "upload", Weight: 1}, {Name: "bswrite", Weight: 1}},
+	// "holds no ... reserved space or temporary file" after a request ended:
+	// the quiescence clauses C03.reserved-zero and C04.stray-file are C14's too
+	props = append(props, &propSpec{ID: "C14", Level: "exploration", Clauses: []string{"C14.", "C03.reserved-zero", "C04.stray-file", "C07.deadlock"},
+		Scens:  []scenSpec{{Name: "hostile", Weight: 3}, {Name: "upload", Weight: 1}, {Name: "bswrite", Weight: 1}, {Name: "conc", Opt: map[string]string{"tight": "1"}, Weight: 1}, {Name: "backend", Weight: 1}},
 		QuickS: 45, ThorS: 900, Rule: ruleCommon})
 	props = append(props, &propSpec{ID: "C17", Level: "exploration", Clauses: []string{"C17."},
 		Scens:  []scenSpec{{Name: "hardlimit", Weight: 1}},
@@ -105,7 +107,7 @@ func init() {
 		QuickS: 40, ThorS: 600,
 		Rule: "directory populations (layouts, kinds, sizes, duplicates, lost+found), access-time permutations, max_size relative to the total and the storage mode are generated from VERIF_SEED; a run is non-trivial if the directory held at least one file and (an eviction happened at start-up or a legacy layout was migrated or a preemption occurred); distinct = distinct schedule/outcome hash"})
 	props = append(props, &propSpec{ID: "C02", Level: "exploration", Clauses: []string{"C02."},
-		Scens:  []scenSpec{{Name: "read", Weight: 1}},
+		Scens:  []scenSpec{{Name: "read", Weight: 3}, {Name: "conc", Weight: 1}},
 		QuickS: 40, ThorS: 600, Rule: ruleCommon})
 	props = append(props, &propSpec{ID: "C05", Level: "exploration", Clauses: []string{"C05."},
 		Scens:  []scenSpec{{Name: "lru", Weight: 1}},
